@@ -19,7 +19,7 @@ ASSUMPTIONS = ["a process forked from the parent that has imported pygradflow bu
 FRESH = True
 CASE_ALARM_S = 300
 OPS_QUICK = ["default", "exact_filter", "resolve", "scaled", "scaled_b", "lamerr", "cb_abort", "pareto", "nostart_then_y"]
-OPS_THOROUGH = OPS_QUICK + ["unsym", "derivcheck", "debug", "integration", "second", "rcond_single", "exp_far"]
+OPS_THOROUGH = OPS_QUICK + ["unsym", "derivcheck", "debug", "integration", "second", "rcond_single", "exp_far", "singular", "banded"]
 
 
 _SHARED = {}
@@ -94,6 +94,18 @@ def op_setup(op):
         # exp(x) - x started far to the left: trial points overflow, which must be handled the same way after any history
         spec = G.raw(1, {"exp": [1.0], "g": [-1.0]}, [], ["-inf"], ["inf"], [-1200.0], "exp_far_start")
         params = R.make_params({"iteration_limit": 80})
+        prob = UserProblem(spec)
+    elif op == "singular":
+        # concave objective with Hessian -1 and lambda = 1: the first step matrix is exactly singular (the factorisation fails, the step
+        # size is reduced); whatever that failure leaves behind must not reach later solves
+        spec = G.raw(2, {"H": [[-1.0, 0.0], [0.0, -1.0]], "g": [0.25, -0.5]}, [], [-1.0, -2.0], [1.0, 1.5], [0.5, 0.25], "concave_singular_first_step")
+        params = R.make_params({"iteration_limit": 40, "params": {"lamb_init": 1.0}})
+        prob = UserProblem(spec)
+    elif op == "banded":
+        # 30 variables, 6 rows: large enough for fill-reducing orderings of the factorisation to matter
+        from pgfmc.model import specs as S
+        spec = S.banded_qp(30, "mixed", 0)
+        params = R.make_params({"iteration_limit": 40})
         prob = UserProblem(spec)
     elif op == "debug":
         spec = specs[3]
@@ -248,7 +260,7 @@ def references(tier):
     return refs
 
 
-PAIR_OPS = ["rcond_single", "exp_far", "default"]
+PAIR_OPS = ["rcond_single", "exp_far", "default", "singular", "banded"]
 
 
 def cases(tier, seed):
